@@ -4324,13 +4324,19 @@ impl Handler {
         // statements (split exactly as the executor splits them), not only at the text as
         // a whole: a multi-line program does not parse as one statement, and a leading
         // meta command used to hide the lines after it.
-        let statements: Vec<statement::Statement> =
+        let mut statements: Vec<statement::Statement> =
             join_continuation_lines(&strip_comments(trimmed))
                 .lines()
                 .map(str::trim)
                 .filter(|line| !line.is_empty())
                 .filter_map(|line| statement::parse_statement(line).ok())
                 .collect();
+        // The fast paths further down act on the request text parsed as ONE statement (the
+        // meta-command parser splits on any whitespace, so `.user create\nbob pw admin` is a
+        // complete `.user create` although neither line parses alone): check that reading too.
+        if let Ok(whole) = statement::parse_statement(trimmed) {
+            statements.push(whole);
+        }
 
         // Authorization check: if auth is provided, validate every statement
         if let Some(identity) = effective_auth {
@@ -4379,29 +4385,36 @@ impl Handler {
             if identity.role != crate::auth::Role::Admin {
                 // A request that names no graph (and has no session binding) acts on the
                 // server's current graph; that is the graph to authorize against.
-                // `.kg use` / `.kg create` switch the graph the following statements act on.
-                let mut stmt_kg: Option<String> = current_kg.map(str::to_string).or_else(|| {
+                let initial_kg: Option<String> = current_kg.map(str::to_string).or_else(|| {
                     self.storage
                         .read()
                         .current_knowledge_graph()
                         .map(str::to_string)
                 });
-                // a graph created earlier in this program belongs to its creator
+                // `.kg use` / `.kg create` switch the graph the following statements act on,
+                // but the executor carries on with the old graph when a switch fails. So keep
+                // the set of graphs a statement may end up running on and require permission
+                // on every one of them. A switch to a graph that exists now will succeed and
+                // replaces the set; a switch to / creation of a graph that does not exist yet
+                // may or may not succeed and only adds to it.
+                let existing_kgs = self.storage.read().list_knowledge_graphs();
+                let mut possible_kgs: Vec<String> = initial_kg.into_iter().collect();
+                // a graph this program creates belongs to its creator
                 let mut created_here: Vec<String> = Vec::new();
                 for stmt in &statements {
-                    // Determine which KG the operation targets
-                    let target_kg = match stmt {
+                    // Determine which KG(s) the operation targets
+                    let explicit_target: Option<Option<&str>> = match stmt {
                         statement::Statement::Meta(
                             statement::MetaCommand::KgDrop(name)
                             | statement::MetaCommand::KgUse(name),
-                        ) => Some(name.as_str()),
+                        ) => Some(Some(name.as_str())),
                         statement::Statement::Meta(
                             statement::MetaCommand::KgAclGrant { ref kg_name, .. }
                             | statement::MetaCommand::KgAclRevoke { ref kg_name, .. },
-                        ) => Some(kg_name.as_str()),
+                        ) => Some(Some(kg_name.as_str())),
                         statement::Statement::Meta(statement::MetaCommand::KgAclList(
                             ref kg_opt,
-                        )) => kg_opt.as_deref(),
+                        )) => Some(kg_opt.as_deref()),
                         // KG create doesn't target an existing KG; list/show/help are global
                         statement::Statement::Meta(
                             statement::MetaCommand::KgCreate(_)
@@ -4410,12 +4423,17 @@ impl Handler {
                             | statement::MetaCommand::Help
                             | statement::MetaCommand::Quit
                             | statement::MetaCommand::Status,
-                        ) => None,
+                        ) => Some(None),
                         // All other statements operate on the current KG
-                        _ => stmt_kg.as_deref(),
+                        _ => None,
+                    };
+                    let targets: Vec<&str> = match explicit_target {
+                        Some(Some(kg)) => vec![kg],
+                        Some(None) => Vec::new(),
+                        None => possible_kgs.iter().map(String::as_str).collect(),
                     };
 
-                    if let Some(kg) = target_kg {
+                    for kg in targets {
                         if created_here.iter().any(|created| created == kg) {
                             // creator acts as owner of the graph it just created
                         } else if let Some(kg_role) =
@@ -4429,11 +4447,20 @@ impl Handler {
 
                     match stmt {
                         statement::Statement::Meta(statement::MetaCommand::KgUse(name)) => {
-                            stmt_kg = Some(name.clone());
+                            if existing_kgs.iter().any(|kg| kg == name) {
+                                possible_kgs = vec![name.clone()];
+                            } else if !possible_kgs.contains(name) {
+                                possible_kgs.push(name.clone());
+                            }
                         }
                         statement::Statement::Meta(statement::MetaCommand::KgCreate(name)) => {
-                            created_here.push(name.clone());
-                            stmt_kg = Some(name.clone());
+                            // creating a graph that already exists fails and switches nothing
+                            if !existing_kgs.iter().any(|kg| kg == name) {
+                                created_here.push(name.clone());
+                                if !possible_kgs.contains(name) {
+                                    possible_kgs.push(name.clone());
+                                }
+                            }
                         }
                         _ => {}
                     }
